@@ -41,7 +41,7 @@ var Includes = map[string][]string{
 	// the verdict of verification = trusted policy in force (C02) × rules consulted (C06) ×
 	// threshold counting (C05) × approvals (C09) × every changed path judged (C10) ×
 	// global rules (C11) × recovery gates (C07) × readers that fail closed (C04)
-	"C01": {"C02.effective-only", "C04.errors-propagate", "C04.stepper-checks", "C04.stepper-table", "C04.match-table", "C04.bounds-table", "C04.annotation-predicates", "C05.", "C06.match-gates", "C06.enter-once", "C06.pre-order", "C06.unprotected", "C06.matches-exact", "C07.", "C09.", "C10.every-path", "C10.gate", "C11."},
+	"C01": {"C02.effective-only", "C04.errors-propagate", "C04.stepper-checks", "C04.stepper-table", "C04.match-table", "C04.bounds-table", "C04.range-table", "C04.annotation-predicates", "C05.", "C06.match-gates", "C06.enter-once", "C06.pre-order", "C06.unprotected", "C06.matches-exact", "C07.", "C09.", "C10.every-path", "C10.gate", "C11."},
 	// metadata signatures are counted by SignatureVerifier.Verify
 	"C02": {"C05.sanity", "C05.git-once", "C05.dedup", "C05.success-iff", "C05.pae"},
 	// single chain: the append is a CAS on the parent the number was derived from
